@@ -621,4 +621,8 @@ property C12: (*verifier).Write, (*verifier).Close, (*FileHash).Verifier, FileHa
 
 property C11: (*ParagraphReader).decodeClearsig, NewParagraphReader, (*ParagraphReader).Signer
 
+// C19: the fields the build order is computed from decode as the Debian layout says (Binary: folded comma list;
+// Build-Depends, Build-Depends-Arch, Build-Depends-Indep: dependency fields; Source: scalar)
+property C19: layout DSC
+
 @*/
